@@ -12,7 +12,7 @@ RULE = ('every history over the five writer calls {new_change, new_file, '
         'write_preamble, write_meta, write_diff} up to length L (counter '
         'history_max_len) is executed on a real DiffXWriter over an '
         'instrumented stream; before each step one must-raise '
-        'invalid-argument variant (rotating through a 21-entry catalogue) is '
+        'invalid-argument variant (rotating through a 30-entry catalogue) is '
         'fired on the same writer, and hostile option values (unknown / '
         'non-ASCII / malformed codec names, odd indents) are fired on a '
         'forked writer under the weaker oracle "raises => atomic, accepted '
@@ -23,7 +23,7 @@ RULE = ('every history over the five writer calls {new_change, new_file, '
         'construction (histories) + fingerprints (random); non-trivial = '
         'history contains at least one rejected and one accepted call.')
 FLOOR = {'quick': 20000, 'thorough': 400000}
-REQUIRED_REACH = ['DiffXWriter._validate_section']
+REQUIRED_REACH = ['writer.py:']
 REQUIRED_COUNTERS = ['order_rejections_checked_atomic',
                      'invalid_variant_rejections_checked_atomic',
                      'accepted_calls', 'final_bytes_compared']
@@ -63,6 +63,15 @@ MUST_RAISE = [
     ('write_diff', (b'x\n',), {'diff_type': 'patch'}),
     ('write_diff', (b'x\n',), {'line_endings': 'mac'}),
     ('write_diff', (bytearray(b'x\n'),), {}),
+    ('write_preamble', ('x\n',), {'line_endings': ''}),
+    ('write_diff', (b'x\n',), {'line_endings': ''}),
+    ('write_meta', ({'k': 'v'},), {'line_endings': ''}),
+    ('write_preamble', ('x\n',), {'mimetype': ''}),
+    ('write_diff', (b'x\n',), {'diff_type': ''}),
+    ('write_meta', ({'k': 'v'},), {'meta_format': ''}),
+    ('write_meta', ({'k': 'v'},), {'meta_format': None}),
+    ('write_preamble', ('x\n',), {'line_endings': 'DOS'}),
+    ('write_preamble', ('x\n',), {'line_endings': 0}),
 ]
 
 #: hostile option values: if the call raises it must be atomic, if it is
@@ -291,6 +300,34 @@ def fork_weak(prefix, wcall, wargs, wkw, wi, obs, case, state):
                 obs.count('probe:state_changed_by_rejected_call(diagnostic)')
             # behavioural confirmation: the writer must continue exactly as
             # a control writer that never received the call
+            # (i) each of the five calls directly after the rejected call
+            for c in CALLS:
+                a, k = valid_args(c, 1)
+                outs = []
+                for with_rejected in (True, False):
+                    s2 = MonitoredStream()
+                    w2 = DiffXWriter(s2)
+                    for pc, pa, pk in prefix:
+                        getattr(w2, pc)(*pa, **pk)
+                    if with_rejected:
+                        try:
+                            getattr(w2, wcall)(*wargs, **wkw)
+                        except Exception:
+                            pass
+                    try:
+                        getattr(w2, c)(*a, **k)
+                        outs.append((None, s2.getvalue()))
+                    except Exception as e:
+                        outs.append((type(e).__name__, s2.getvalue()))
+                obs.count('weak_variant_next_call_compared')
+                if outs[0] != outs[1]:
+                    obs.violation(
+                        'rejected_call_changed_later_behaviour:hostile_'
+                        'option:%s' % wcall, wcase,
+                        {'next_call': c, 'after_rejected': outs[0][0],
+                         'control': outs[1][0]})
+                    return
+            # (ii) a longer continuation
             cstream = MonitoredStream()
             cw = DiffXWriter(cstream)
             for c, a, k in prefix:
